@@ -1,10 +1,178 @@
-/- driver ops for property C02 (model side of the correspondence) -/
-import Rsa.Core.Wire
+/- driver ops for property C02 (model side of the correspondence); Mathlib-free.
 
-open Lean Rsa.Wire
+   ops
+     c02.crossnobis   exact (`Rat`): one precision (or none) / one precision per fold
+     c02.poisson_cv   `Float`
+   common fields
+     ckind, fkind : "int" | "str" | "rat"   label types of conditions / folds
+     cond : [label]      fold : [label] | null (null = default descriptor, k-th occurrence)
+     x : [[number]]      P : channel count
+     what : "algo" (as coded, default) | "spec" (statement) | "lastfold" (pinned-tree poisson)
+   answer: {"pairs": [[a, b, value] …]}  or  {"reject": "unbalanced"}
+-/
+import Rsa.Core.Wire
+import Rsa.Core.CrossVal
+
+open Lean Rsa.Wire Rsa.CrossVal
 
 namespace Rsa.Drv.C02
 
-def handle : Handler := fun _op _j => none
+/-- Gauss–Jordan inverse over `Rat` (the driver's own `np.linalg.inv`); `none` if singular -/
+def gjInv (n : Nat) (A : Nat → Nat → Rat) : Option (Array (Array Rat)) := Id.run do
+  let mut M : Array (Array Rat) := Array.ofFn (n := n) fun i =>
+    Array.ofFn (n := 2 * n) fun j =>
+      if j.1 < n then A i.1 j.1 else if j.1 - n = i.1 then 1 else 0
+  for c in [0:n] do
+    let mut piv : Option Nat := none
+    for r in [c:n] do
+      if piv.isNone && M[r]![c]! != 0 then piv := some r
+    match piv with
+    | none => return none
+    | some p =>
+      let rowp := M[p]!
+      M := M.set! p M[c]!
+      M := M.set! c rowp
+      let d := M[c]![c]!
+      M := M.set! c (M[c]!.map (fun a => a / d))
+      let rowc := M[c]!
+      for r in [0:n] do
+        if r != c then
+          let f := M[r]![c]!
+          M := M.set! r ((M[r]!.zip rowc).map (fun ab => ab.1 - f * ab.2))
+  return some (M.map (fun row => row.extract n (2 * n)))
+
+/-- total inverse used as the model's `inv` parameter (singular ↦ empty; the ops below
+    refuse singular inputs before using it) -/
+def invL (n : Nat) (A : List (List Rat)) : List (List Rat) :=
+  match gjInv n (matFn A) with
+  | some B => B.toList.map (·.toList)
+  | none => []
+
+def matOfList {α : Type} [Zero α] (m : List (List α)) : Nat → Nat → α :=
+  fun k l => (m.getD k []).getD l 0
+
+def vecOfList {α : Type} [Zero α] (v : List α) : Nat → α := fun k => v.getD k 0
+
+/-- decode labels of the given kind and continue generically -/
+def withLbl (kind : String)
+    (k : (β : Type) → [DecidableEq β] → [LT β] → [DecidableLT β] →
+      (Json → R β) → (β → Json) → R Json) : R Json :=
+  match kind with
+  | "int" => k Int asInt ofInt
+  | "str" => k String asStr Json.str
+  | "rat" => k Rat asRat ofRat
+  | other => throw s!"unknown label kind {other}"
+
+def mkObs {L F α : Type} (cond : List L) (fold : List F) (x : List (Nat → α)) :
+    List (Obs L F α) :=
+  (cond.zip (fold.zip x)).map (fun t => ⟨t.1, t.2.1, t.2.2⟩)
+
+def encPairs {L α : Type} (encL : L → Json) (encN : α → Json)
+    (res : List ((L × L) × α)) : Json :=
+  obj [("pairs", ofList (fun e => Json.arr #[encL e.1.1, encL e.1.2, encN e.2]) res)]
+
+def specPairs {L F α : Type} [DecidableEq L] [LT L] [DecidableLT L]
+    [DecidableEq F] [LT F] [DecidableLT F]
+    (D : List (Obs L F α)) (val : List F → L → L → α) : List ((L × L) × α) :=
+  let conds := sortedDistinct (D.map (·.cond))
+  let folds := sortedDistinct (D.map (·.fold))
+  (pairsOf conds).map (fun ab => (ab, val folds ab.1 ab.2))
+
+/-- crossnobis on decoded data -/
+def crossRun {L F : Type} [DecidableEq L] [LT L] [DecidableLT L]
+    [DecidableEq F] [LT F] [DecidableLT F]
+    (encL : L → Json) (j : Json) (P : Nat) (D : List (Obs L F Rat)) : R Json := do
+  let rm ← asBool (fldD j "remove_mean" (Json.bool false))
+  let what ← asStr (fldD j "what" (Json.str "algo"))
+  let nj := fldD j "noise" Json.null
+  let nkind ← asStr (fldD j "noise_kind" (Json.str "none"))
+  match nkind with
+  | "none" | "matrix" =>
+    let N : Nat → Nat → Rat ←
+      if nkind = "none" then pure eye
+      else do
+        let m ← asList (asList asRat) nj
+        pure (matOfList m)
+    if what = "spec" then
+      pure (encPairs encL ofRat
+        (specPairs D (fun S a b => crossnobisSpec (xT rm P) P N D S a b)))
+    else
+      pure (encPairs encL ofRat (crossnobisAlgo rm P N D))
+  | "list" =>
+    let Ns ← asList (asList (asList asRat)) nj
+    if Ns.any (fun N => (gjInv P (matFn N)).isNone) then throw "singular precision" else
+    let inv := invL P
+    if (pairsOf (Ns.map inv)).any (fun vw => (gjInv P (matFn (matAvg vw.1 vw.2))).isNone) then
+      throw "singular averaged covariance" else
+    if what = "spec" then
+      let folds := sortedDistinct (D.map (·.fold))
+      let table : List ((F × F) × List (List Rat)) :=
+        (folds.zip Ns).flatMap (fun mN => (folds.zip Ns).map (fun nN =>
+          ((mN.1, nN.1), inv (matAvg (inv mN.2) (inv nN.2)))))
+      let prec : F → F → Nat → Nat → Rat := fun m n =>
+        match table.find? (fun e => e.1.1 = m ∧ e.1.2 = n) with
+        | some e => matFn e.2
+        | none => eye
+      pure (encPairs encL ofRat
+        (specPairs D (fun S a b => foldPrecSpec (xT rm P) P prec D S a b)))
+    else
+      pure (encPairs encL ofRat (foldPrecAlgo inv rm P Ns D))
+  | other => throw s!"unknown noise kind {other}"
+
+def poissonRun {L F : Type} [DecidableEq L] [LT L] [DecidableLT L]
+    [DecidableEq F] [LT F] [DecidableLT F]
+    (encL : L → Json) (j : Json) (P : Nat) (D : List (Obs L F Float)) : R Json := do
+  let what ← asStr (fldD j "what" (Json.str "algo"))
+  let lam0 ← fld j "prior_lambda" >>= asFloat
+  let w ← fld j "prior_weight" >>= asFloat
+  match what with
+  | "spec" =>
+    pure (encPairs encL ofFloat
+      (specPairs D (fun S a b => poissonCvSpec Float.log lam0 w P D S a b)))
+  | "lastfold" => pure (encPairs encL ofFloat (poissonCvLastFold Float.log lam0 w P D))
+  | _ => pure (encPairs encL ofFloat (poissonCvAlgo Float.log lam0 w P D))
+
+/-- decode the design (labels, default folds) and run `k` on the observations -/
+def withDesign {α : Type} [Zero α] (j : Json) (decN : Json → R α)
+    (k : {L F : Type} → [DecidableEq L] → [LT L] → [DecidableLT L] →
+      [DecidableEq F] → [LT F] → [DecidableLT F] →
+      (L → Json) → Nat → List (Obs L F α) → R Json) : R Json := do
+  let ckind ← fld j "ckind" >>= asStr
+  let P ← fld j "P" >>= asNat
+  let xs ← fld j "x" >>= asList (asList decN)
+  let x := xs.map vecOfList
+  let cj ← fld j "cond" >>= asArr
+  let fj := fldD j "fold" Json.null
+  withLbl ckind fun L _ _ _ decL encL => do
+    let cond ← cj.mapM decL
+    if cond.length ≠ x.length then throw "cond / x length mismatch" else
+    if fj.isNull then
+      match defaultCv cond with
+      | none => pure (obj [("reject", Json.str "unbalanced")])
+      | some fold => k (L := L) (F := Nat) encL P (mkObs cond fold x)
+    else do
+      let fkind ← fld j "fkind" >>= asStr
+      let fa ← asArr fj
+      if fa.length ≠ x.length then throw "fold / x length mismatch" else
+      withLbl fkind fun F _ _ _ decF _ => do
+        let fold ← fa.mapM decF
+        k (L := L) (F := F) encL P (mkObs cond fold x)
+
+/-- the default fold descriptor alone -/
+def defaultCvOp (j : Json) : R Json := do
+  let ckind ← fld j "ckind" >>= asStr
+  let cj ← fld j "cond" >>= asArr
+  withLbl ckind fun _ _ _ _ decL _ => do
+    let cond ← cj.mapM decL
+    match defaultCv cond with
+    | none => pure (obj [("reject", Json.str "unbalanced")])
+    | some fold => pure (obj [("fold", ofList ofNat fold)])
+
+def handle : Handler := fun op j =>
+  match op with
+  | "c02.crossnobis" => some (withDesign j asRat (fun encL P D => crossRun encL j P D))
+  | "c02.poisson_cv" => some (withDesign j asFloat (fun encL P D => poissonRun encL j P D))
+  | "c02.default_cv" => some (defaultCvOp j)
+  | _ => none
 
 end Rsa.Drv.C02
